@@ -3,10 +3,10 @@ import itertools
 from core import Inst
 
 META = {
-    'functions': ['qbe.c:emittype', 'qbe.c:emitclass', 'qbe.c:qbetype', 'qbe.c:emitname', 'decl.c:addmember'],
+    'functions': ['qbe.c:funcexpr(EXPRCALL)', 'expr.c:postfixexpr (argument conversion)', 'qbe.c:emittype', 'qbe.c:emitclass', 'qbe.c:qbetype', 'qbe.c:emitname', 'decl.c:addmember'],
     'bounds': {'descriptor': 'structs of <= 3 members over {char short int long float double, bit-fields in char/short/int/long units with symbolic width, char[3], int[2], char[2][3], int[2][2]}'},
     'stubs': ['printf/putchar/puts decode the type definition', 'error()/fatal() end the path'],
-    'outside': ['mixed cproc/gcc executables (needs QBE and an assembler)', 'call-site argument classes and variadic marker', 'unions and nested aggregates', 'va_list descriptors', '_Alignas on members'],
+    'outside': ['mixed cproc/gcc executables (needs QBE and an assembler)', 'call sites beyond the 11 corpus functions (scalar conversions, variadic, function pointer, struct arguments and results by value)', 'unions and nested aggregates', 'va_list descriptors', '_Alignas on members'],
 }
 ALL = ['decl', 'type', 'util']
 
@@ -27,4 +27,8 @@ def instances(build, tier, seed):
     # sizeof/_Alignof/offsetof pinned to the platform compiler's values (shared with C06)
     import c06
     L += c06.abi_instances(tier, seed, fam='layout-abi')
+    # call sites: whole functions through the real parser and lowering; every call must pass exactly the callee's parameters in the class of their
+    # (converted/promoted) type - aggregates as typed addresses, the variadic marker in place - and use the result in its class (harness/h_tv.c)
+    import tvcorpus
+    L += [i for i in tvcorpus.corpus_instances(tier, fam='callsite') if '.call-' in i.name]
     return L
